@@ -308,6 +308,11 @@ class Padding(WidgetDecoration[WrappedWidget], typing.Generic[WrappedWidget]):
             canv = self._original_widget.render((self._width_amount,) + size[1:], focus)
         else:
             canv = self._original_widget.render((), focus)
+            # the child is drawn at its own width; what min_width or the rounding of a relative width add to it
+            # (pack() counts it) is blank space to its right
+            spare = self.pack((), focus)[0] - left - right - canv.cols()
+            if spare > 0:
+                right += spare
 
         if canv.cols() == 0:
             canv = SolidCanvas(" ", size[0], canv.rows())
